@@ -22,8 +22,10 @@ const TYPES: &[&str] = &[
 const FIELD_NAMES: &[&str] = &[
     "a", "b", "c", "lorem", "ipsum", "ident", "attrs", "vis", "ty", "data", "generics", "bounds",
     "default", "discriminant", "fields", "r#type", "skip", "e",
+    // identifiers on which case rules have little or nothing to work with
+    "__", "_x", "x_", "\u{e9}t\u{e9}", "X", "a1", "\u{3b1}\u{3b2}",
 ];
-const VARIANT_NAMES: &[&str] = &["A", "B", "Cee", "Dee", "UnitOne", "Struct", "New", "r#type", "r#Second", "r#fn", "HTTPServer", "snake_like"];
+const VARIANT_NAMES: &[&str] = &["A", "B", "Cee", "Dee", "UnitOne", "Struct", "New", "r#type", "r#Second", "r#fn", "HTTPServer", "snake_like", "\u{c9}t\u{e9}", "\u{e9}", "__", "X1"];
 const PATHS: &[&str] = &[
     "f", "Self::new", "Default::default", "my::module::func", "::std::default::Default::default",
     "make::<u8>",
